@@ -117,6 +117,8 @@ func (s *stats) labels() []string {
 	add(s.pathOrigin, "origin-carried-by-an-update-or-delete-path")
 	add(s.maxBulk > 32, "bulk-update>32")
 	add(s.maxBulk > 64, "bulk-update>64")
+	add(s.maxBulk > 1024, "bulk-update>1024")
+	add(s.maxDeleted > 1024, "one-delete-removed>1024-leaves")
 	add(s.maxDeleted > 32, "one-delete-removed>32")
 	add(s.maxDeleted > 64, "one-delete-removed>64")
 	add(s.bigDeleteWithSurvivor, "delete-removed>32-and-left-a-matching-survivor")
